@@ -49,6 +49,14 @@ def sv_ref(t, tag=None):
     return SV('ref', t, tag)
 
 
+class _Args:
+    def __init__(self, pos, kw, star=None, dstar=None):
+        self.pos, self.kw, self.star, self.dstar = pos, kw, star, dstar
+
+    def static(self):
+        return self.star is None and self.dstar is None
+
+
 class Closure:
     def __init__(self, node, module, fid, name=None, selfsv=None, cls=None, finfo=None):
         self.node, self.module, self.fid, self.name, self.selfsv, self.cls, self.finfo = node, module, fid, name, selfsv, cls, finfo
@@ -173,16 +181,22 @@ class Executor:
         self.ref_modules = ref_modules or {}
         self.ref_funcs = {}
         self.ref_imports = {}
+        self.ref_externs = {}
         for mname, tree in self.ref_modules.items():
             imap = self.ref_imports.setdefault(mname, {})
             for node in ast.walk(tree):
                 if isinstance(node, ast.ImportFrom) and node.module and node.module.startswith('glom.'):
                     for al in node.names:
                         imap[al.asname or al.name] = (node.module.split('.', 1)[1], al.name)
+                elif isinstance(node, ast.ImportFrom) and node.module and node.module.split('.')[0] in ('boltons', 'itertools', 'functools', 'collections'):
+                    # an external library function imported by the reference itself: the same opaque primitive the real code gets for it
+                    for al in node.names:
+                        self.ref_externs.setdefault(mname, {})[al.asname or al.name] = '%s.%s' % (node.module, al.name)
             for node in tree.body:
                 if isinstance(node, ast.FunctionDef):
                     self.ref_funcs[node.name] = (mname, node)
         self.obligations = []      # side obligations registered during execution (loop invariants etc.)
+        self.post_loop_reads = set()   # (loop name, attribute) read from the heap after that summarised loop (loop frame guard)
         cache = _SHARED.get(id(facts))
         if cache is None:
             bf = self._base_facts()
@@ -389,13 +403,19 @@ class Executor:
             if isinstance(sub, ast.Name) and sub.id not in order:
                 order.append(sub.id)
         captured = [n for n in order if n not in bound and clo.fid is not None and clo.fid in st.frames and self._frame_has(st, clo.fid, n)]
-        if isinstance(clo.node, ast.Lambda):
+        nested_def = isinstance(clo.node, ast.FunctionDef) and clo.fid is not None and not clo.name
+        if isinstance(clo.node, ast.Lambda) or nested_def:
+            # (a def nested in a function is treated like a lambda: its own name is immaterial)
             # identity up to renaming of parameters and captured variables (alpha-equivalence); globals keep their names
             ren = {}
             for n in order:
                 if n in bound or n in captured:
                     ren[n] = 'v%d' % len(ren)
             norm = _copy.deepcopy(clo.node)
+            if nested_def:
+                norm.name = 'f'
+                if norm.body and isinstance(norm.body[0], ast.Expr) and isinstance(norm.body[0].value, ast.Constant) and isinstance(norm.body[0].value.value, str):
+                    norm.body = norm.body[1:] or [ast.Pass()]
             for sub in ast.walk(norm):
                 if isinstance(sub, ast.Name) and sub.id in ren:
                     sub.id = ren[sub.id]
@@ -698,6 +718,8 @@ class Executor:
                 r = self._glom_global(st, name, gm, strict=True)
                 if r is not None:
                     return r
+            if name in self.ref_externs.get(module, {}):
+                return SV('builtin', self.ref_externs[module][name])
         else:
             r = self._glom_global(st, name, module)
             if r is not None:
@@ -970,7 +992,10 @@ class Executor:
         for kind, s, v in self.eval(e.operand, st, module):
             if kind != 'ok':
                 outs.append((kind, s, v)); continue
-            if v.k == 'int' and isinstance(e.op, ast.USub):
+            dm = self._inst_dunder(v, {'Invert': '__invert__', 'USub': '__neg__', 'UAdd': '__pos__'}.get(type(e.op).__name__))
+            if dm is not None:
+                outs += self.call(s, dm, _Args([], {}), module)
+            elif v.k == 'int' and isinstance(e.op, ast.USub):
                 outs.append(('ok', s, SV('int', -v.v)))
             elif v.k == 'int' and isinstance(e.op, ast.UAdd):
                 outs.append(('ok', s, v))
@@ -989,7 +1014,20 @@ class Executor:
             outs += self.binop(s, self.BINOPS[type(e.op)], vals[0], vals[1], e)
         return outs
 
+    def _inst_dunder(self, v, dunder):
+        """the method an operator resolves to on an instance of a class of the code under verification (ordinary dispatch along the MRO)"""
+        if dunder and v.k == 'ref' and v.t and v.t.startswith('inst:'):
+            ci = self.repo.classes.get(v.t[5:])
+            if ci is not None:
+                m = self.repo.lookup_method(ci, dunder)
+                if m is not None:
+                    return SV('func', Closure(m.node, m.module, None, name=m.name, selfsv=v, finfo=m, cls=m.cls.name))
+        return None
+
     def binop(self, st, op, a, b, node=None):
+        dm = self._inst_dunder(a, '__%s__' % op)
+        if dm is not None:
+            return self.call(st, dm, _Args([b], {}), dm.v.module)
         if a.k == 'int' and b.k == 'int':
             if op == 'add': return [('ok', st, SV('int', a.v + b.v))]
             if op == 'sub': return [('ok', st, SV('int', a.v - b.v))]
